@@ -7,7 +7,7 @@
 From Coq Require Import String.
 From Coq Require Import List Arith ZArith.
 Import ListNotations.
-From YP Require Import Base.Str Term.Term Term.Show Engine.Db Engine.DbCursor Engine.DbCursorThms Engine.DbRetractOrder Engine.DbFacts Engine.DbProg Engine.DbProgThms Engine.RunDbProg Engine.DbProgInv Engine.DbProgSim Engine.DbProgCut.
+From YP Require Import Base.Str Term.Term Term.Show Engine.Db Engine.DbCursor Engine.DbCursorThms Engine.DbClear Engine.DbRetractOrder Engine.DbFacts Engine.DbProg Engine.DbProgThms Engine.RunDbProg Engine.DbProgInv Engine.DbProgSim Engine.DbProgCut.
 
 (* "A goal that enumerates the dynamic facts of a predicate works on the facts as they were when the
    goal started: additions and removals made while the enumeration is suspended do not change which
@@ -298,3 +298,36 @@ Proof.
     + repeat constructor; simpl; try tin_small.
   - eexists. eexists. eexists. split; [vm_compute; reflexivity|]. repeat split.
 Qed.
+
+(* round 4 - clear() while retracts are suspended (Engine/DbClear.v).  "a suspended retract skips facts that have meanwhile
+   been removed, never removing or returning a fact twice" - removed by WHATEVER operation, clear() included: an answer of
+   a retract cursor, at any point of any history, returns an Answer that is in the store at that moment (under the
+   cursor's key) and is in no list afterwards *)
+Theorem C14_retract_answer_is_stored : forall mt evs s s1 outs1 e s2 k i a,
+  ids_ok (sdb s) (snext s) -> run mt s evs = Some (s1, outs1) -> step mt s1 e = Some (s2, ORet k i a) ->
+  In i (map fid (sdb s1 k)) /\ (forall k', ~ In i (map fid (sdb s2 k'))).
+Proof. exact retract_answer_is_stored. Qed.
+Print Assumptions C14_retract_answer_is_stored.
+
+(* everything a retract cursor returns and a retractall removes after a clear() is an Answer created after that clear():
+   a retract that was suspended before it never brings one of its old candidates back *)
+Theorem C14_after_clear_only_new_facts : forall mt evs s s' outs,
+  ids_ok (sdb s) (snext s) -> run mt s (EClear :: evs) = Some (s', outs) ->
+  forall i, In i (removed outs) -> snext s <= i.
+Proof. exact after_clear_only_new_facts. Qed.
+Print Assumptions C14_after_clear_only_new_facts.
+
+(* non-vacuity: the move loop  retract(p(X)), assertz(moved(X))  with a clear() after the first answer: moved stays empty
+   of old facts - the resumed retract ends; with p(2) asserted again after the clear() it is the NEW p(2) (identity 4)
+   that a later retract removes *)
+Example C14_clear_while_retract_suspended :
+  let p := d "p"%string in
+  let f x := TFun p [TInt x] in
+  let evs := [EAssert false (f 1%Z); EAssert false (f 2%Z); EAssert false (f 3%Z);
+              EStart 0 (QRetract (TFun p [TVar 0])); ENext 0; EClear; EAssert false (f 2%Z); ENext 0; ENext 0;
+              EStart 1 (QRetract (TFun p [TVar 0])); ENext 1; ENext 1] in
+  exists s' outs, run (match_fact 20) init evs = Some (s', outs) /\
+    outs_of 0 evs outs = [ORet (p, 1) 0 [TInt 1%Z]; OEnd; OEnd] /\
+    outs_of 1 evs outs = [ORet (p, 1) 3 [TInt 2%Z]; OEnd] /\
+    removed outs = [0; 3].
+Proof. eexists. eexists. split; [vm_compute; reflexivity|]. repeat split. Qed.
